@@ -1,5 +1,115 @@
-#!/bin/bash
-# placeholder until the Miri scenarios are built: records that the stage did not run
-mkdir -p /verif/target
-echo '{"stage":"not built yet"}' > /verif/target/miri-summary.json
-exit 0
+#!/usr/bin/env python3
+"""Miri stage of the C18 check (second engine, DESIGN §3.8).
+
+  run_miri.sh --seeds N            run scenarios S1..S4 under N seeded schedules each
+  run_miri.sh --replay FILE        re-run one (scenario, seed)
+
+Interprets the *shipped* configuration of /repo/regexml (no hooks) on real std threads under
+Miri's seeded preemptive scheduler; data races, deadlocks, UB and result mismatches are
+violations. A failure of the tooling itself (build error, unsupported operation, time-out)
+is recorded as "stage not run"/"infrastructure" and never turned into a violation.
+Writes /verif/target/miri-summary.json (read by the simulator's evidence writer)."""
+import json, os, re, subprocess, sys, time
+
+SCEN_DIR = "/verif/miri/scen"
+SUMMARY = "/verif/target/miri-summary.json"
+SCENARIOS = {
+    "S1": "three threads share one Regex through all four APIs",
+    "S2": "concurrent cold first use of the process-wide block table from three threads",
+    "S3": "compile on thread A, use on B, use and drop on C",
+    "S4": "interleaved, partially consumed iterators on a shared object across two threads",
+    "S5": "concurrent first calls on a freshly compiled shared object (empty-matching and ordinary pattern)",
+}
+VIOLATION_MARKS = ["C18-MISMATCH", "Data race detected", "deadlock", "Undefined Behavior"]
+INFRA_MARKS = ["unsupported operation", "could not compile", "error: no such command", "is not installed"]
+
+
+def run(scenario, lo, hi, timeout):
+    env = dict(os.environ)
+    env["CARGO_NET_OFFLINE"] = "true"
+    env["MIRIFLAGS"] = f"-Zmiri-many-seeds={lo}..{hi} -Zmiri-preemption-rate=0.1"
+    env.pop("RUSTFLAGS", None)
+    t0 = time.time()
+    try:
+        p = subprocess.run(["cargo", "+nightly", "miri", "run", "--offline", "--", scenario],
+                           cwd=SCEN_DIR, env=env, stdout=subprocess.PIPE, stderr=subprocess.STDOUT,
+                           timeout=timeout, text=True, errors="replace")
+        out, rc, timed_out = p.stdout, p.returncode, False
+    except subprocess.TimeoutExpired as e:
+        out = (e.stdout or b"")
+        out = out.decode(errors="replace") if isinstance(out, bytes) else out
+        rc, timed_out = -1, True
+    return out, rc, timed_out, time.time() - t0
+
+
+def classify(out):
+    for m in VIOLATION_MARKS:
+        if m in out:
+            return "violation", m
+    for m in INFRA_MARKS:
+        if m in out:
+            return "infrastructure", m
+    return "unknown", ""
+
+
+def stage(nseeds):
+    base = int(os.environ.get("VERIF_SEED", "20261002")) % 100000
+    summary = {"stage": "run", "engine": "cargo +nightly miri run, -Zmiri-many-seeds, -Zmiri-preemption-rate=0.1",
+               "configuration": "shipped (feature verif-hooks off)", "seed_range": [base, base + nseeds],
+               "scenarios": {}, "violations": [], "infrastructure_failures": []}
+    os.makedirs("/verif/target", exist_ok=True)
+    os.makedirs("/verif/replays", exist_ok=True)
+    for sc, desc in SCENARIOS.items():
+        out, rc, timed_out, wall = run(sc, base, base + nseeds, timeout=2400)
+        ok = len(re.findall(rf"scenario {sc} ok", out))
+        failing = [int(x) for x in re.findall(r"FAILING SEED: (\d+)", out)]
+        entry = {"what": desc, "seeds": nseeds, "ok": ok, "failing_seeds": failing, "wall_s": round(wall, 1)}
+        if timed_out:
+            entry["note"] = "timed out"
+            summary["infrastructure_failures"].append(f"{sc}: timed out after {wall:.0f}s ({ok} seeds finished)")
+        elif failing or (rc != 0 and ok < nseeds):
+            kind, mark = classify(out)
+            if kind == "violation" and failing:
+                for seed in failing[:3]:
+                    path = f"/verif/replays/C18-miri-{sc}-{seed}.json"
+                    tail = "\n".join(l for l in out.splitlines() if not l.startswith("warning"))[-3000:]
+                    json.dump({"property": "C18", "engine": "miri", "scenario": sc, "seed": seed,
+                               "kind": mark, "output_tail": tail}, open(path, "w"), indent=1)
+                    summary["violations"].append({"scenario": sc, "seed": seed, "kind": mark, "replay": path})
+            else:
+                tail = out[-1500:]
+                summary["infrastructure_failures"].append(f"{sc}: rc={rc} kind={kind} {mark}: {tail}")
+                entry["note"] = "infrastructure failure; not counted"
+        summary["scenarios"][sc] = entry
+    if summary["infrastructure_failures"] and not any(e.get("ok") for e in summary["scenarios"].values()):
+        summary["stage"] = "not run (tool failure)"
+    json.dump(summary, open(SUMMARY, "w"), indent=1)
+    print("miri stage:", json.dumps({k: (v["ok"], v["failing_seeds"]) for k, v in summary["scenarios"].items()}),
+          "violations:", len(summary["violations"]))
+    return 0
+
+
+def replay(path):
+    r = json.load(open(path))
+    sc, seed = r["scenario"], int(r["seed"])
+    out, rc, timed_out, wall = run(sc, seed, seed + 1, timeout=2400)
+    print("\n".join(l for l in out.splitlines() if not l.startswith("warning"))[-4000:])
+    kind, mark = classify(out)
+    if "FAILING SEED" in out and kind == "violation":
+        print(f"VIOLATION property=C18 replay={path}")
+        return 1
+    if timed_out or kind == "infrastructure":
+        print("replay: Miri could not run this scenario here (tool failure)")
+        return 2
+    print("replay: no violation observed on the current tree")
+    return 0
+
+
+if __name__ == "__main__":
+    a = sys.argv[1:]
+    if len(a) == 2 and a[0] == "--seeds":
+        sys.exit(stage(int(a[1])))
+    if len(a) == 2 and a[0] == "--replay":
+        sys.exit(replay(a[1]))
+    print(__doc__)
+    sys.exit(2)
